@@ -242,3 +242,18 @@ CHECKS["C07"] = {
     ],
     "mandatory_labels": {"all": ["seq/refusal", "seq/implicit-path", "seq/backfill", "seq/malformed-input", "seq/reopen-mid-sequence"]},
 }
+
+CHECKS["C13"] = {
+    "level": "exploration",
+    "level_text": ("rapid-generated logs of 0..12 metadata and message entries written locally and replicated in one batch / entry by entry / mixed, then the complete "
+                   "(since, until, reverse) cube over the entries plus unknown identifiers, against the write order recorded by the harness; two-writer logs are checked "
+                   "with a validity predicate (linear extension of the causal order) and a replica differential"),
+    "level_note": "the parameter cube is enumerated exhaustively per log; the RPC layer adds only parameter-consistency checks on top of the store listing and is exercised in C19",
+    "technique": "property-based testing (rapid) with exhaustive parameter enumeration per generated log; reference = harness-recorded write order",
+    "rule": ("case = one listing query on one log; non-trivial = both bounds set on a log of >=3 entries; distinct = (log size, delivery mode, store, query)"),
+    "assumptions": ["message listings are compared on devices that hold the sender's chain key"],
+    "units": [
+        {"pkg": ".", "run": "^TestVerif_C13_", Q: {"timeout": 900}, T: {"timeout": 3400, "shards": 16}},
+    ],
+    "mandatory_labels": {"all": ["listing/both-bounds-n>=3", "logs/replica-batch>=2", "two-writers/concurrent-pair"]},
+}
